@@ -871,6 +871,12 @@ func makePlan(r *rec.Rand, s *scen.Scenario, tier string) *Plan {
 			p.Steps = append(p.Steps, Step{Kind: "batch", Items: items})
 			i += n - 1
 		default:
+			if p.Depth < 25 {
+				// ListObjects under a small resolution-depth limit is unstable on its own (whether
+				// the depth error of one branch surfaces depends on goroutine timing)
+				p.Steps = append(p.Steps, Step{Kind: "check", Item: mkItem(order[i], w, u)})
+				break
+			}
 			it := mkItem(order[i], w, u)
 			it.Type, _ = scen.SplitObj(it.Obj)
 			it.Obj = ""
@@ -1040,7 +1046,7 @@ func runCase(ctx context.Context, w *rec.Writer, s *scen.Scenario, p *Plan) {
 		var unc [][]obs
 		var cac [][]obs
 		var dumps [][]dumpEntry
-		for k := 0; k < 2; k++ {
+		for k := 0; k < uncRuns; k++ {
 			switch eng {
 			case 0:
 				o, _ := c.runV1(ctx, false, universe, subjects)
@@ -1072,8 +1078,10 @@ func runCase(ctx context.Context, w *rec.Writer, s *scen.Scenario, p *Plan) {
 		for si := range p.Steps {
 			for ci, cl := range unc[0][si].Classes {
 				w.Stat(fmt.Sprintf("engine%d_uncached_%s", eng, classNames[cl]), 1)
-				if unc[1][si].Classes[ci] != cl {
-					w.Stat(fmt.Sprintf("engine%d_uncached_unstable", eng), 1)
+				for k := 1; k < len(unc); k++ {
+					if unc[k][si].Classes[ci] != cl {
+						w.Stat(fmt.Sprintf("engine%d_uncached_unstable", eng), 1)
+					}
 				}
 				for _, run := range cac {
 					if run[si].Classes[ci] != cl {
@@ -1129,6 +1137,15 @@ func runCase(ctx context.Context, w *rec.Writer, s *scen.Scenario, p *Plan) {
 		rec.I(1), rec.L(models...), rec.L(wvs...), atoms, rec.L(svs...), rec.I(p.Depth), rec.I(flags), rec.L(stepvs...), rec.L(engvs...))
 }
 
+// number of uncached reference runs per engine (debugging: C08_UNC)
+var uncRuns = 2
+
+func init() {
+	if v := os.Getenv("C08_UNC"); v != "" {
+		fmt.Sscan(v, &uncRuns)
+	}
+}
+
 func b2i(b bool) int {
 	if b {
 		return 1
@@ -1173,6 +1190,13 @@ func main() {
 		default:
 			s = scen.Generate(rr, scen.DefaultOpts())
 		}
+		t0 := time.Now()
 		runCase(ctx, w, s, makePlan(rr, s, o.Tier))
+		if d := time.Since(t0); d > 5*time.Second {
+			w.Stat("slow_cases", 1)
+			if os.Getenv("C08_DEBUG") != "" {
+				fmt.Fprintf(os.Stderr, "slow case %d (%s): %v\n", i, s.Shape, d)
+			}
+		}
 	}
 }
